@@ -512,3 +512,103 @@ func TestYieldFromIO(t *testing.T) {
 		}
 	})
 }
+
+// ---------------------------------------------------------------------------
+// Part "shared-prefix": a MonadIO value is immutable under composition: m.FlatMap(f) is a new
+// MonadIO and leaves m as it was. One base is used as the prefix of several compositions (and is
+// itself evaluated in between); every evaluation of every one of them yields its own value and
+// runs exactly its own chain of effects.
+// ---------------------------------------------------------------------------
+
+type sharedCase struct {
+	// Derive[i] = index of the MonadIO (0 = base, k = the k-th derived one) the i-th derived one extends
+	Derive []int `json:"derive"`
+	// Evals: indices of MonadIOs to evaluate, in order
+	Evals []int `json:"evals"`
+	Pre   bool  `json:"pre"` // the FlatMap functions return pre-built inner MonadIOs (reused on every evaluation)
+}
+
+func runShared(c sharedCase) (key, msg string) {
+	var trace []string
+	base := fpgo.MonadIONewGenerics(func() int { trace = append(trace, "e0"); return 1 })
+	ios := []*fpgo.MonadIODef[int]{base}
+	// reference: chain of stage ids per MonadIO
+	chains := [][]int{{}}
+	p, st := vlib.Try(func() {
+		for i, from := range c.Derive {
+			id := i + 1
+			parent := ios[from]
+			var pre *fpgo.MonadIODef[int]
+			var preIn int
+			if c.Pre {
+				pre = fpgo.MonadIONewGenerics(func() int { trace = append(trace, fmt.Sprintf("e%d", id)); return preIn*10 + id })
+			}
+			d := parent.FlatMap(func(x int) *fpgo.MonadIODef[int] {
+				if c.Pre {
+					preIn = x
+					return pre
+				}
+				return fpgo.MonadIONewGenerics(func() int { trace = append(trace, fmt.Sprintf("e%d", id)); return x*10 + id })
+			})
+			ios = append(ios, d)
+			chains = append(chains, append(append([]int{}, chains[from]...), id))
+		}
+	})
+	if p != nil {
+		return "C11/shared-prefix/panic", fmt.Sprintf("%v\n%s", p, firstFrames(st))
+	}
+	if len(trace) != 0 {
+		return "C11/shared-prefix/lazy", fmt.Sprintf("composition ran effects %v", trace)
+	}
+	for n, idx := range c.Evals {
+		trace = nil
+		var got int
+		if p, st := vlib.Try(func() { got = ios[idx].Eval() }); p != nil {
+			return "C11/shared-prefix/panic", fmt.Sprintf("%v\n%s", p, firstFrames(st))
+		}
+		want, wantTrace := 1, []string{"e0"}
+		for _, id := range chains[idx] {
+			want = want*10 + id
+			wantTrace = append(wantTrace, fmt.Sprintf("e%d", id))
+		}
+		if got != want || fmt.Sprint(trace) != fmt.Sprint(wantTrace) {
+			return "C11/shared-prefix", fmt.Sprintf("evaluation #%d of MonadIO %d (chain base%v): value %d effects %v, want value %d effects %v — composing from a shared prefix must not change the prefix or its other compositions", n+1, idx, chains[idx], got, trace, want, wantTrace)
+		}
+	}
+	return "", ""
+}
+
+func TestSharedPrefix(t *testing.T) {
+	if vlib.Replaying() {
+		t.Skip()
+	}
+	vlib.Check(t, "shared-prefix", 3000, 30000, func(t *rapid.T) {
+		var c sharedCase
+		n := rapid.IntRange(1, 5).Draw(t, "derived")
+		for i := 0; i < n; i++ {
+			c.Derive = append(c.Derive, rapid.IntRange(0, i).Draw(t, "from"))
+		}
+		c.Evals = rapid.SliceOfN(rapid.IntRange(0, n), 1, 8).Draw(t, "evals")
+		c.Pre = rapid.Bool().Draw(t, "pre")
+		vlib.S().Eval("shared-prefix")
+		fan := map[int]int{}
+		for _, f := range c.Derive {
+			fan[f]++
+		}
+		shared := false
+		for _, k := range fan {
+			if k >= 2 {
+				shared = true
+			}
+		}
+		if shared && len(c.Evals) >= 2 {
+			vlib.S().NonTrivial("shared-prefix", fmt.Sprintf("%+v", c))
+		}
+		if key, msg := runShared(c); key != "" {
+			vlib.WriteReplay("C11/shared", c)
+			if vlib.Fail(t, key, "%+v: %s", c, msg) {
+				t.Skip("known")
+			}
+		}
+	})
+}
